@@ -524,6 +524,10 @@ func (h *Hash) Sum() uint64       { return mix(h.h) }
 // progress counts the draws from any Rand: the scenario drivers draw on every step.
 var progress atomic.Uint64
 
+// Progress is for drivers with long loops that draw no random numbers (C12's in-order
+// workloads and churn cycles): it tells the spin watchdog that the scenario made a step.
+func Progress() { progress.Add(1) }
+
 const spinSamples = 20
 
 var (
